@@ -173,8 +173,16 @@ def check(repo, res, tier):
     res.rule("R-SHAPE", "matrix evaluators registered as matrices")
     res.s_clauses = ["S1 R-DERIV", "S2 R-CAO", "S3 R-REFRESH", "S4 R-SHAPE"]
     res.n_clauses = ["correctness of sympy's diff / jacobian and of the compiled code", "numeric evaluation away from singularities of the rates"]
+    n = check_builders(repo, res, None, ((2, 3, 2), (3, 2, 3), (1, 2, 1), (2, 1, 3)))
+    res.floor("builder interpretations", n, 24)
+    check_shapes(repo, res, {"jacobian", "grad", "diff_jacobian", "grad_jacobian", "transitionJacobian", "transitionMean", "transitionVar"},
+                 {"transitionJacobian": "one-event models", "jacobian": "one-state models"})
+
+
+def check_builders(repo, res, names, shapes):
+    """R-DERIV / R-CAO / R-REFRESH for the builders in `names` (None = all seven) at the given shapes"""
     n = 0
-    for nS, nP, nE in ((2, 3, 2), (3, 2, 3), (1, 2, 1), (2, 1, 3)):
+    for nS, nP, nE in shapes:
         sh = "(nS=%d,nP=%d,nE=%d)" % (nS, nP, nE)
         w = BWorld(repo, nS, nP, nE)
         specs = [
@@ -191,6 +199,8 @@ def check(repo, res, tier):
             ("get_TransitionVar", "R-CAO", lambda: _tm(w, 2), "sigma2[i] = sum_j F[i,j]^2 a_j", ["_transitionJacobian", "_eventRateVector"]),
         ]
         for name, rule, want_fn, text, needs in specs:
+            if names is not None and name not in names:
+                continue
             w.refreshed = []
             try:
                 fn, kind, out, me = w.run(name)
@@ -214,9 +224,7 @@ def check(repo, res, tier):
             miss = [a_ for a_ in needs if a_ not in w.refreshed]
             res.check(not miss, "R-REFRESH", fn, "refresh:" + tag, "%s rebuilds %s before using it" % (name, needs),
                       "%s uses %s without rebuilding it in this activation" % (name, miss), node=fn.node)
-    res.floor("builder interpretations", n, 24)
-    check_shapes(repo, res, {"jacobian", "grad", "diff_jacobian", "grad_jacobian", "transitionJacobian", "transitionMean", "transitionVar"},
-                 {"transitionJacobian": "one-event models", "jacobian": "one-state models"})
+    return n
 
 
 def _tj(w):
